@@ -120,6 +120,8 @@ Section Doc.
         | _ => SpellsOneOf v doc_shapes \/ SpellsOneOf v doc_arrowheads
         end
     | KThemeID | KDarkThemeID => IntIn v (fun z => In z doc_theme_ids)
+    | KLabelNear | KIconNear => In v doc_label_positions
+    | KTooltipNear => In v doc_tooltip_positions
     end.
 
   (* ------------------------------------------------------------ deciders *)
@@ -171,5 +173,16 @@ Section Doc.
         | _ => spells_one_of_b v doc_shapes || spells_one_of_b v doc_arrowheads
         end
     | KThemeID | KDarkThemeID => int_in_b v (fun z => existsb (Z.eqb z) doc_theme_ids)
+    | KLabelNear | KIconNear => mem_word v doc_label_positions
+    | KTooltipNear => mem_word v doc_tooltip_positions
     end.
 End Doc.
+
+(* near on a root-level object of a diagram with no other object: one of the eight constants.
+   The value is D2 key syntax (it is re-parsed as a key: surrounding blanks, quotes, a trailing
+   comment are syntax), so the domain is stated on the key the value denotes: the one-element
+   path whose element is a constant.  [DocNear] is the literal form. *)
+Definition DocNear (v : list N) : Prop := In v doc_near_constants.
+Definition DocNearKey (p : option (list (list N))) : Prop := exists w, p = Some [w] /\ In w doc_near_constants.
+Definition doc_near_key_b (p : option (list (list N))) : bool :=
+  match p with Some [w] => mem_word w doc_near_constants | _ => false end.
